@@ -470,8 +470,9 @@ def p2_confirmed_guards(F, r):
     eq2 = []
     for bi, si, st in mir.stmts(gfn):
         rv = st["r"]
-        if rv["k"] == "bin" and rv["op"] in ("Eq", "Ne") and any(mir.is_const(o) and str(o["c"]).startswith("2_") for o in rv["o"]) and \
-                any(mir.is_place(o) and any(k == "call" and gfn["bbs"][v]["t"]["callee"].endswith("::len") for k, v, p_ in mir.trace(gfn, o)) for o in rv["o"]):
+        # `tw.len() == 2` through a call, or the length test of a slice pattern `[start, end]` (MIR: PtrMetadata / Len of the parameter)
+        if rv["k"] == "bin" and rv["op"] in ("Eq", "Ne") and rv.get("ty") == "usize" and any(mir.expr(gfn, o)[0][0] == "const" and str(mir.expr(gfn, o)[0][1]).startswith("2_") for o in rv["o"]) and \
+                any(mir.is_place(o) and any(k == "arg" and v == 1 for k, v, p_ in mir.deep_leaves(gfn, o)[0]) for o in rv["o"]):
             sw = gfn["bbs"][bi]["t"]
             if sw["k"] == "switch":
                 zero = [tb for v, tb in sw["tg"] if v == 0]
